@@ -64,7 +64,17 @@ def polygonOracle (input : List (V2 Float)) (pts : List (V2 Float)) (nrm : List 
     let c := cross2 a b p
     c < 0 && c * c > tol * tol * (b.sub a).normSq
   match badPt with
-  | p :: _ => s!"fail input-point-outside-polygon ({p.x},{p.y})"
+  | p :: _ =>
+    -- `from_convex_polyline` prunes a vertex when adjacent unit normals satisfy dot > 1 - sqrt(eps) (a turn below
+    -- ~1.7e-4 rad): a pruned input point can then lie up to ~2e-4·edge outside. Such shallow violations carry a tag
+    -- (known finding); anything deeper is a plain failure.
+    let shallow := P.all fun p => (List.range m).all fun i =>
+      let a := vAt i; let b := vAt (i + 1)
+      let c := cross2 a b p
+      let lim : Rat := 1 / 4000
+      !(c < 0 && c * c > lim * lim * (b.sub a).normSq * (b.sub a).normSq)
+    let tag := if shallow then "[pruned-nearly-collinear-vertex]" else ""
+    s!"fail input-point-outside-polygon{tag} ({p.x},{p.y})"
   | [] =>
     -- normals: unit, orthogonal to their edge, pointing outward (to the right of a CCW edge)
     let badN := (List.range m).filter fun i =>
@@ -73,7 +83,14 @@ def polygonOracle (input : List (V2 Float)) (pts : List (V2 Float)) (nrm : List 
       let t9 : Rat := 1 / 1000000000
       !(rabs (n.normSq - 1) ≤ t9) || !(rabs (n.dot e) ≤ t9 * (1 + e.normSq)) || !(e.x * n.y - e.y * n.x < 0)
     match badN with
-    | i :: _ => s!"fail normal-{i}-does-not-match-its-edge"
+    | i :: _ =>
+      -- a normal kept from a pruned nearly collinear edge deviates from its edge by at most the pruning angle
+      let shallowN := badN.all fun i =>
+        let e := (vAt (i + 1)).sub (vAt i)
+        let n := (N[i]?).getD ⟨0, 0⟩
+        let lim : Rat := 1 / 4000
+        rabs (n.normSq - 1) ≤ (1 / 1000000000 : Rat) && (n.dot e) * (n.dot e) ≤ lim * lim * e.normSq && e.x * n.y - e.y * n.x < 0
+      s!"fail normal-does-not-match-its-edge{if shallowN then "[pruned-nearly-collinear-vertex]" else ""} i={i}"
     | [] => "pass"
 
 def pmesh3 : P (List (V3 Float) × List (Nat × Nat × Nat)) := do
